@@ -394,7 +394,7 @@ func pubsubConditionEntry() *entry {
 			}
 			c.Sig("%s:doc:%s:%v", typ, muts[0], err == nil)
 			cond2 := pubsub.Condition(g.r.Intn(23))
-			reuseCheck(c, e, "UnmarshalXML(document)", d, []byte(fmt.Sprintf(`<%s xmlns="%s"/>`, cond2.String(), nsPubsubErrors)))
+			reuseCheck(c, e, "UnmarshalXML(document)", true, d, []byte(fmt.Sprintf(`<%s xmlns="%s"/>`, cond2.String(), nsPubsubErrors)))
 			return
 		}
 		c.Sample(attrSample{Type: typ, Mode: "named-element", Value: cond.String(), Attr: string(base)})
